@@ -50,6 +50,8 @@ structure RWCfg where
   complexPartStrict : Option Bool
   /-- the recovery scan of `SDAI_Application_instance::STEPread` leaves the `;` for `ReadInstance` -/
   recoveryKeepsSemicolon : Bool
+  /-- `SkipInstance` steps over comments (a `;` or apostrophe inside a comment does not end the instance) -/
+  skipInstanceSkipsComments : Bool
   /-- `ReadInstance` hands the severity of a complex instance to `AppendEntityErrorMsg` (as it does for simple ones) -/
   complexReportsError : Bool
 deriving Repr, DecidableEq, Inhabited
@@ -98,10 +100,28 @@ def readTokenSeparatorAux : Nat → IStream → IStream
 def readTokenSeparator (s : IStream) : IStream :=
   if s.eof then s else readTokenSeparatorAux (s.right.length + 2) s
 
-/-- the repaired `CheckRemainingInput` skips comments where the original skips white space only -/
+/-- `SkipTokenSeparators` of the repaired `Str.cc`: white space and complete `/* … */` comments; a `/` that does not
+    open a comment stays on the stream -/
+def skipSeps : Nat → IStream → IStream
+  | 0, s => s
+  | fuel + 1, s =>
+    let s1 := s.ws
+    if s1.good then
+      match s1.right with
+      | 47 :: 42 :: r =>
+        match commentBody (42 :: 47 :: s1.left) r with
+        | some (l, r') => skipSeps fuel { s1 with left := l, right := r' }
+        | none => { s1 with left := r.reverse ++ 42 :: 47 :: s1.left, right := [], eof := true, fail := true }
+      | _ => s1
+    else s1
+
+/-- `CheckRemainingInput` as the source has it now: the repaired one skips comments where the original skips white
+    space only -/
 def cri (cfg : RWCfg) (delims : Option (List Byte)) (s : IStream) (err : Sev) : IStream × Sev :=
   if cfg.criSkipsComments && !s.eof && !s.bad then
-    checkRemainingInput delims (readTokenSeparator s.clear) err
+    let s1 := skipSeps (s.right.length + 2) s.clear
+    -- the white-space skip inside is then a no-op; at the end of input nothing is reported (as before)
+    if s1.eof then (s1, err) else checkRemainingInput delims s1 err
   else checkRemainingInput delims s err
 
 /-! ## keyword scanners -/
@@ -122,22 +142,28 @@ def foundEndSec (s : IStream) : Bool × IStream :=
     if c2 == 59 then (true, s3) else (false, s3.putback c2)
   else (false, s1)
 
-/-- `SkipInstance` / `FindStartOfInstance`: scan to `stop` (`;` consumed, `#` put back), stepping over strings -/
-def scanTo (stop : Byte) (putBack : Bool) : Nat → Byte → IStream → M IStream
+/-- `SkipInstance` / `FindStartOfInstance`: scan to `stop` (`;` consumed, `#` put back), stepping over strings and —
+    in the repaired `SkipInstance` — over comments -/
+def scanTo (stop : Byte) (putBack : Bool) (skipCmt : Bool) : Nat → Byte → IStream → M IStream
   | 0, _, _ => throw .outOfFuel
   | fuel + 1, c, s =>
     if !s.good then pure s
     else
       let (c1, s1) := shiftInto c s
       if c1 == stop then pure (if putBack then s1.putback c1 else s1)
+      else if c1 == 47 && skipCmt then
+        let (p, s2) := s1.peekC
+        if p == 42 then scanTo stop putBack skipCmt fuel c1 (readComment (s2.putback c1))
+        else scanTo stop putBack skipCmt fuel c1 s2
       else if c1 == 39 then
         let (_, s2, _) := stringRead (s1.putback c1) .null
-        scanTo stop putBack fuel c1 s2
+        scanTo stop putBack skipCmt fuel c1 s2
       else if c1 == 0 then pure s1
-      else scanTo stop putBack fuel c1 s1
+      else scanTo stop putBack skipCmt fuel c1 s1
 
-def skipInstance (s : IStream) : M IStream := scanTo 59 false (s.right.length + 2) 0 s
-def findStartOfInstance (s : IStream) : M IStream := scanTo 35 true (s.right.length + 2) 0 s
+def skipInstance (cfg : RWCfg) (s : IStream) : M IStream :=
+  scanTo 59 false cfg.skipInstanceSkipsComments (s.right.length + 2) 0 s
+def findStartOfInstance (s : IStream) : M IStream := scanTo 35 true false (s.right.length + 2) 0 s
 
 /-- `while( in.get( c ) && ( isalnum( c ) || c == '_' ) ) buf += c;` on a good stream -/
 def kwLoop : List Byte → Byte → List Byte → List Byte → List Byte × Byte × List Byte × List Byte × Bool
@@ -673,18 +699,18 @@ def Mgr.update {F} (m : Mgr F) (i : MInst F) : Mgr F :=
   { insts := m.insts.map (fun x => if x.id == i.id then i else x) }
 
 /-- `CreateInstance` after the `#`: the instance created (`none` = ENTITY_NULL) and the stream -/
-def createInstance {F} (d : Dict) (m : Mgr F) (s : IStream) : M (Option (MInst F) × IStream) := do
+def createInstance {F} (cfg : RWCfg) (d : Dict) (m : Mgr F) (s : IStream) : M (Option (MInst F) × IStream) := do
   let s1 := readTokenSeparator s
   let (oi, s2) := s1.extractInt32
   let fileid := oi.getD (-1)
   if (m.find? fileid).isSome then
-    let s3 ← skipInstance s2
+    let s3 ← skipInstance cfg s2
     pure (none, s3)
   else
     let s3 := readTokenSeparator s2
     let (c, s4) := getInto 0 s3
     if c != 61 then
-      let s5 ← skipInstance s4
+      let s5 ← skipInstance cfg s4
       pure (none, s5)
     else
       let s5 := readTokenSeparator s4
@@ -699,7 +725,7 @@ def createInstance {F} (d : Dict) (m : Mgr F) (s : IStream) : M (Option (MInst F
         let (names, s10) ← complexNames (s9.right.length + 3) [] c4 s9
         -- `STEPcomplex::Initialize` splices out the names the registry does not know
         let sorted := sortNames (names.filter (fun n => (d.entity? n).isSome))
-        let s11 ← skipInstance s10
+        let s11 ← skipInstance cfg s10
         if d.complexSets.contains sorted then
           let parts : List (MPart F) := sorted.map (fun n =>
             { name := n, vals := match d.entity? n with | some e => defaults e.ownAttrs | none => [] })
@@ -709,7 +735,7 @@ def createInstance {F} (d : Dict) (m : Mgr F) (s : IStream) : M (Option (MInst F
       else
         let (nmB, s7) := readStdKeyword s6
         let nm := bytesToString (upperBytes nmB)
-        let s8 ← skipInstance s7
+        let s8 ← skipInstance cfg s7
         match d.entity? nm with
         | some e =>
           if e.abstract then pure (none, s8)
@@ -735,27 +761,27 @@ def resync : Nat → Byte → IStream → M (Byte × Bool × IStream)
         resync fuel c' (readTokenSeparator s3)
     else pure (c, false, s)
 
-def readData1Loop {F} (d : Dict) : Nat → P1 F → Bool → M (P1 F)
+def readData1Loop {F} (cfg : RWCfg) (d : Dict) : Nat → P1 F → Bool → M (P1 F)
   | 0, _, _ => throw .outOfFuel
   | fuel + 1, st, endsec =>
     if st.s.good && !endsec then do
       let s1 := readTokenSeparator st.s
       let (c, s2) := shiftInto 0 s1
       let (_, endsec1, s3) ← if c != 35 then resync (s2.right.length + 3) c (s2.putback c) else pure (c, false, s2)
-      if endsec1 then readData1Loop d fuel { st with s := s3 } true
+      if endsec1 then readData1Loop cfg d fuel { st with s := s3 } true
       else
-        let (oi, s4) ← createInstance d st.mgr s3
+        let (oi, s4) ← createInstance cfg d st.mgr s3
         let st1 : P1 F := match oi with
           | some i => { st with mgr := { insts := st.mgr.insts ++ [i] }, count := st.count + 1, s := s4 }
           | none => { st with notCreated := st.notCreated + 1, s := s4 }
         let (es, s5) := foundEndSec st1.s
-        readData1Loop d fuel { st1 with s := s5 } es
+        readData1Loop cfg d fuel { st1 with s := s5 } es
     else pure st
 
 /-- `ReadData1`, entered right after `DATA;` -/
-def readData1 {F} (d : Dict) (s : IStream) : M (P1 F) := do
+def readData1 {F} (cfg : RWCfg) (d : Dict) (s : IStream) : M (P1 F) := do
   let (es, s1) := foundEndSec s
-  readData1Loop d (s1.right.length + 3) { mgr := {}, count := 0, notCreated := 0, s := s1 } es
+  readData1Loop cfg d (s1.right.length + 3) { mgr := {}, count := 0, notCreated := 0, s := s1 } es
 
 /-! ## pass 2 -/
 
@@ -786,17 +812,17 @@ def readInstance {F} (ops : FloatOps F) (lex : LexCfg) (cfg : RWCfg) (d : Dict) 
   let fileid := oi.getD (-1)
   match st.mgr.find? fileid with
   | none =>
-    let s2 ← skipInstance s1
+    let s2 ← skipInstance cfg s1
     pure ({ st with s := s2 }, none)
   | some inst =>
     if inst.state != .new then
-      let s2 ← skipInstance s1
+      let s2 ← skipInstance cfg s1
       pure ({ st with s := s2 }, none)
     else
       let s2 := readTokenSeparator s1
       let (c, s3) := getInto 0 s2
       if c != 61 then
-        let s4 ← skipInstance s3
+        let s4 ← skipInstance cfg s3
         pure ({ st with s := s4 }, none)
       else
         let s4 := readTokenSeparator s3
@@ -894,7 +920,7 @@ def getKeyword : Nat → Bool → Byte → IStream → Bool → Bool × IStream
 def readDataSection {F} (ops : FloatOps F) (lex : LexCfg) (cfg : RWCfg) (d : Dict) (strict : Bool) (skipws : Bool)
     (bytes : List Byte) : M (FileResult F) := do
   let s0 : IStream := { right := bytes, skipws := skipws }
-  let p1 ← readData1 (F := F) d s0
+  let p1 ← readData1 (F := F) cfg d s0
   let e1 : Sev := if p1.notCreated > 0 then .warning else .null
   let (es, s1) := foundEndSec s0
   let st0 : P2 F := { mgr := p1.mgr, fileErr := e1, total := 0, valid := 0, invalid := 0, incomplete := 0, warnings := 0, s := s1 }
